@@ -301,3 +301,44 @@ func VerifC02GetDHCP4() {
 }
 
 var _ = netip.Addr{}
+
+// VerifC02GetLLDP: LLDP TLV getters against IEEE 802.1AB: TLV header = 7 bits type, 9 bits length.
+func VerifC02GetLLDP() {
+	b, n := verifView(1536)
+	p := LLDP(b)
+	if p.IsValid() != nil {
+		return
+	}
+	verifReach("valid")
+	t0 := int(b[0] >> 1)
+	l0 := int(b[0]&1)<<8 | int(b[1])
+	switch verifChoose(3) {
+	case 0:
+		c := p.ChassisID()
+		if (t0 == 0 && l0 == 0) || 2+l0 > n {
+			verifAssert(len(c) == 0, "LLDP.ChassisID.none")
+		} else {
+			verifAssert(len(c) == l0, "LLDP.ChassisID.len")
+			verifAssert(l0 == 0 || verifOffset(b, c) == 2, "LLDP.ChassisID.off")
+		}
+	case 1:
+		// second TLV (port id) after a well-formed chassis id TLV
+		verifAssume(!(t0 == 0 && l0 == 0) && 2+l0+2 < n)
+		o := 2 + l0
+		verifAssume(o+1 < n)
+		t1 := int(b[o] >> 1)
+		l1 := int(b[o]&1)<<8 | int(b[o+1])
+		v := p.PortID()
+		if (t1 == 0 && l1 == 0) || o+2+l1 > n {
+			verifAssert(len(v) == 0, "LLDP.PortID.none")
+		} else {
+			verifAssert(len(v) == l1, "LLDP.PortID.len")
+			verifAssert(l1 == 0 || verifOffset(b, v) == o+2, "LLDP.PortID.off")
+		}
+	case 2:
+		// GetPDU of the first TLV's own type returns the first TLV
+		verifAssume(!(t0 == 0 && l0 == 0) && 2+l0 <= n)
+		v := p.GetPDU(t0)
+		verifAssert(len(v) == l0, "LLDP.GetPDU.first.len")
+	}
+}
